@@ -144,10 +144,12 @@ func runC13(c *engine.Ctx) {
 				}
 				var missing []string
 				for fv := range ji.identity {
-					eq, k := st.Equal(func(v ssa.Value) bool { lf, b := engine.LoadedField(v); return lf == fv && b == ssa.Value(recv) }, func(v ssa.Value) bool {
+					// the comparison may sit in this function or in an extracted helper (guard summary): the field is
+					// identified by its object, the other operand must derive from a non-receiver parameter
+					eq, k := st.Equal(func(v ssa.Value) bool { lf, _ := engine.LoadedField(v); return lf == fv }, func(v ssa.Value) bool {
 						src := engine.Provenance(v, engine.ProvOpts{})
 						for pr := range src.Params {
-							if pr != recv {
+							if pr.Parent() != nil && len(pr.Parent().Params) > 0 && pr != pr.Parent().Params[0] {
 								return true
 							}
 						}
